@@ -431,11 +431,14 @@ def activity(isotope, mass, env, exposure, rest_times):
             # Column Q: 2n mode effective lambda of stable target (1/h)
             lam_2n = flux*initialXS*1e-24*3600
             # Column R: radioactive parent (1/h)
-            parent_activity = env.fluence*1e-24*3600*effectiveXS+parent_lam
+            parent_capture = env.fluence*1e-24*3600*effectiveXS
+            parent_activity = parent_capture+parent_lam
             # Column S: resulting product (1/h)
             product_2n = lam if ai.reaction == '2n' else 0
             # Column T: activity if 2n mode
-            activity = root*lam*(parent_activity-parent_lam)*(
+            # Note: parent_activity-parent_lam loses the capture rate to rounding
+            # at low flux, so use the capture rate itself.
+            activity = root*lam*parent_capture*(
                 (exp(-lam_2n*exposure)
                  / ((parent_activity-lam_2n)*(product_2n-lam_2n)))
                 + (exp(-parent_activity*exposure)
